@@ -11,7 +11,7 @@ SERVES = {
         ref="DESIGN.md section 3, C05"),
 }
 
-OPS = ["configure", "info", "exec", "call_addr"]
+OPS = ["configure", "run", "info", "exec", "call_addr"]
 INV = ["TypeOK", "UndefinedIffNotIntroduced", "PrecompileIffIntroduced"]
 PROPS = ["OnlyConfigureChangesFork", "HistoryIndependent"]
 NFORKS, NBYTES, NADDRS = 21, 256, 21
@@ -23,28 +23,38 @@ def run(ctx, pid):
                 "256 bytes, Exec(b, path) for 256 bytes x 21 SpecIds x {evm, table}, CallAddr(a, funded) for 21 addresses "
                 "x 21 SpecIds x 2; thorough: all probes additionally after every re-configuration; distinct = distinct edges")
     if ctx.quick:
-        consts, name = dict(MaxHist=2, TrackPrev="FALSE"), "opcodes"
+        plans = [(dict(MaxHist=4, TrackPrev="FALSE", TrackRan='"dep"'), "opcodes")]
     else:
-        consts, name = dict(MaxHist=3, TrackPrev="TRUE"), "opcodes_reconf"
+        plans = [(dict(MaxHist=3, TrackPrev="TRUE", TrackRan='"none"'), "opcodes_reconf"),
+                 (dict(MaxHist=4, TrackPrev="FALSE", TrackRan='"all"'), "opcodes_ran")]
     binary = vf.cargo_build("opcodes")
-    run_ = vf.tlc(ctx, "Opcodes", vf.cfg(consts, invariants=INV, properties=PROPS), name=name, workers=4,
-                  timeout=1500)
-    edges = run_.lines.get("EDGE", [])
-    # vacuity guards: the dump must contain the whole quantifier of the property
-    execs = {(e["op"]["byte"], e["op"]["fork"], e["op"]["path"]) for e in edges if e["op"]["op"] == "exec"}
-    calls = {(e["op"]["addr"], e["op"]["fork"], e["op"]["funded"]) for e in edges if e["op"]["op"] == "call_addr"}
-    infos = {e["op"]["byte"] for e in edges if e["op"]["op"] == "info"}
-    confs = {e["op"]["fork"] for e in edges if e["op"]["op"] == "configure"}
-    classes = {e["post"]["last"]["class"] for e in edges if e["op"]["op"] == "exec"}
-    if (len(execs) != NBYTES * NFORKS * 2 or len(calls) != NADDRS * NFORKS * 2 or len(infos) != NBYTES
-            or len(confs) != NFORKS or classes != {"undefined", "invalid", "defined"}):
-        raise vf.ToolError("vacuous: TLC enumerated %d exec / %d call / %d info / %d configure cases, classes %s"
-                           % (len(execs), len(calls), len(infos), len(confs), sorted(classes)))
-    summ = vf.replay_edges(ctx, res, run_, "opcodes", [], name=name, binary=binary, expect_ops=OPS,
-                           keyprefix="opcodes")
-    if summ.get("tainted"):
-        # a tainted edge is one whose history already diverged (reported at its root); say so
-        vf.log("opcodes: %d edges not judged because an earlier operation of their history diverged" % summ["tainted"])
+    for consts, name in plans:
+        run_ = vf.tlc(ctx, "Opcodes", vf.cfg(consts, invariants=INV, properties=PROPS), name=name, workers=4,
+                      timeout=2400, coverage=False)
+        edges = run_.lines.get("EDGE", [])
+        # vacuity guards: the dump must contain the whole quantifier of the property
+        execs = {(e["op"]["byte"], e["op"]["fork"], e["op"]["path"]) for e in edges if e["op"]["op"] == "exec"}
+        calls = {(e["op"]["addr"], e["op"]["fork"], e["op"]["funded"]) for e in edges if e["op"]["op"] == "call_addr"}
+        infos = {e["op"]["byte"] for e in edges if e["op"]["op"] == "info"}
+        confs = {e["op"]["fork"] for e in edges if e["op"]["op"] == "configure"}
+        classes = {e["post"]["last"]["class"] for e in edges if e["op"]["op"] == "exec"}
+        if (len(execs) != NBYTES * NFORKS * 2 or len(calls) != NADDRS * NFORKS * 2 or len(infos) != NBYTES
+                or len(confs) != NFORKS or classes != {"undefined", "invalid", "defined"}):
+            raise vf.ToolError("vacuous: TLC enumerated %d exec / %d call / %d info / %d configure cases, classes %s"
+                               % (len(execs), len(calls), len(infos), len(confs), sorted(classes)))
+        if consts["TrackRan"] != '"none"':
+            # every re-configuration f1 -> f2 after a transaction under f1 must be followed by address probes
+            after = {(e["hist"][-3]["fork"], e["op"]["fork"]) for e in edges
+                     if e["op"]["op"] == "call_addr" and len(e["hist"]) >= 3 and e["hist"][-2]["op"] == "run"
+                     and e["hist"][-1]["op"] == "configure"}
+            if len(after) < NFORKS * (NFORKS - 1):
+                raise vf.ToolError("vacuous: only %d (ran-under, configured) pairs probed after a transaction" % len(after))
+            res.extra["reconfigured_after_tx_pairs"] = len(after)
+        summ = vf.replay_edges(ctx, res, run_, "opcodes", [], name=name, binary=binary, expect_ops=OPS,
+                               keyprefix="opcodes")
+        if summ.get("tainted"):
+            # a tainted edge is one whose history already diverged (reported at its root); say so
+            vf.log("opcodes: %d edges not judged because an earlier operation of their history diverged" % summ["tainted"])
     res.exhaustive = True
     res.extra["opcode_fork_cases"] = len(execs)
     res.extra["precompile_fork_cases"] = len(calls)
